@@ -53,7 +53,11 @@ def run (kv : List (String × String)) : IO Res := do
     -- (a target that changed its address space before the last request: only that request saw what the fresh writer sees)
     let grown := get kv "mutated" == some "2"
     if grown then tags := "target.grown" :: tags
-    if can != fcan && !(grown && j + 1 < imgs.length) then
+    -- (a writer that was given another principal address before the last request: only that request was made with the
+    -- fresh writer's configuration)
+    let reconf := get kv "reconf" == some "1"
+    if reconf then tags := "writer.reconfigured" :: tags
+    if can != fcan && !((grown || reconf) && j + 1 < imgs.length) then
       return .propfail s!"dump #{j} of the reused writer differs from a fresh writer's dump: {firstDiff can fcan}" tags
     -- the last request and the fresh writer's see the same (parked) target: the copies of the target's files that do
     -- not change by themselves must be the same bytes (the target's limits were changed just before that request)
